@@ -72,6 +72,7 @@ static Verdict run(const Case &c) {
 int main(int argc, char **argv) {
     Args a = parse_args(argc, argv);
     if (!a.replay.empty()) return replay_case(a, run);
+    zygote_start(run);   // before any code under test runs in this process
     Current::install(a.failing);
     Evidence ev;
     ev.rule = "histories of Discover(ToS 0/1/other, generation from boundary dictionary, bridged or direct)/Hello/Reset/Emit/Probe/Query/"
